@@ -48,7 +48,9 @@ ASSUMPTIONS = [
     "free lock and wait on a set event return) is assumed, not modelled",
     "the trace validation runs the model's silent steps (event=None, the admission test, _setup_version reads, the body, "
     "prune) lazily right before the thread's next visible step; the theorems quantify over every placement of them",
-    "version pruning is outside this model (C11); the implementation's deque is compared through its last element",
+    "version pruning itself is outside this model (C11); the implementation's deque is compared through its last element; "
+    "a pruning policy that raises during a commit is modelled (Cfg.pruneFails, any pattern of failures): the commit behaves "
+    "as a rollback with hand-off, and 1 schedule in 4 installs such a policy (always / k-th call / while readers are open)",
     "every model thread runs one transaction; a thread running several in sequence is the same as several threads "
     "(the protocol never looks at thread identity)",
     "async (trio/asyncio) use and cancellation inside writer() are not modelled (threading only, as the code says)",
@@ -86,6 +88,22 @@ ROLE_INFO = {
 ROLES = tuple(ROLE_INFO)
 READERS = ("rd", "rdw")
 REPLACEMENT = ("wcR", "wrR")
+
+
+class PolicyError(Exception):
+    """raised on purpose by the pruning policy installed by the harness"""
+
+
+def policy_name(spec):
+    return "-" if not spec else spec[0] + ("" if len(spec) == 1 else str(spec[1]))
+
+
+def policy_spec(name):
+    if name in ("", "-"):
+        return None
+    if name.startswith("kth"):
+        return ["kth", int(name[3:])]
+    return [name]
 
 
 class Boom(Exception):
@@ -160,6 +178,9 @@ class Observer:
         self.reader_obs = []  # (tid, version id, version content, seen)
         self.hist = {}
         self.blocked_on_wait = set()
+        self.failing = set()  # writers during whose commit the pruning policy raised
+        self.policy_calls = 0
+        self.pre = {}  # tid -> (zone.nodes, last version) when its end section began
         self.ending = set()  # writers that called commit()/rollback() and have not returned
         self.local = {}  # tid -> (version id, snapshot) of an admitted writer
 
@@ -193,6 +214,16 @@ class Observer:
         self.states.append(self.state() + suffix)
         k = label.split(".")[0]
         self.hist[k] = self.hist.get(k, 0) + 1
+
+    def policy_raised(self, tid):
+        self.note("pruning-policy-raised")
+        if tid is not None and self.roles[tid] not in READERS:
+            self.failing.add(tid)
+            self.note("commit-failed-in-pruning-policy")
+            if self.z._write_waiters:
+                self.note("commit-failed-with-writers-queued")
+        elif tid is not None:
+            self.note("reader-end-raised-in-pruning-policy")
 
     def note(self, k):
         self.hist[k] = self.hist.get(k, 0) + 1
@@ -238,7 +269,10 @@ class Observer:
             else:
                 self.emit(tid, "wq!")
         if nlast is not olast:
-            self.emit(tid, "ver")
+            if nlast is not None and olast is not None and nlast.id < olast.id:
+                self.emit(tid, "ver-")  # the version appended by a failing commit was withdrawn
+            else:
+                self.emit(tid, "ver")
         if nnodes is not onodes:
             self.emit(tid, "nod")
             self.committed.append(tid)
@@ -263,6 +297,15 @@ class Observer:
             # after `ret` is the end of its write transaction
             if tid in self.open_writers:
                 self.open_writers.remove(tid)
+                if tid in self.failing:
+                    # the failed commit must leave nothing behind: not published, write ended (same lock hold)
+                    nodes0, last0 = self.pre.get(tid, (None, None))
+                    z = self.z
+                    if z.nodes is not nodes0 or not z._versions or z._versions[-1] is not last0 or z._write_txn is not None:
+                        self.bad("C12/commit-failure/half-published-or-not-ended",
+                                 f"writer {tid}: its commit failed in the pruning policy, yet zone.nodes changed="
+                                 f"{z.nodes is not nodes0}, newest version changed={not z._versions or z._versions[-1] is not last0}, "
+                                 f"write txn still registered={z._write_txn is not None}")
         elif k == "new":
             self.ev_owner[what[1]] = tid
             self.emit(tid, f"new.{what[1]}")
@@ -294,6 +337,7 @@ class Observer:
             self.emit(tid, "ret", f"/{vid}:{sl(snap)}")
         elif k == "wending":
             self.ending.add(tid)
+            self.pre[tid] = (self.z.nodes, self.z._versions[-1] if self.z._versions else None)
         elif k == "wend":  # commit()/rollback() returned
             if tid in self.open_writers:
                 self.bad("C12/mutex/end-without-release", f"writer {tid} ended its transaction without a lock hold")
@@ -337,7 +381,7 @@ class Observer:
         self.admitted.append(tid)
 
 
-def run_schedule(roles, mode, chooser, max_steps=None):
+def run_schedule(roles, mode, chooser, max_steps=None, policy=None):
     """run one schedule on the implementation; returns a result dict"""
     saved = dns.versioned.threading
     res = {}
@@ -351,6 +395,18 @@ def run_schedule(roles, mode, chooser, max_steps=None):
         lock = zone._version_lock
         obs = Observer(zone, lock, roles)
         sch.observer = obs
+        if policy:
+            def prune_policy(z, version):
+                obs.policy_calls += 1
+                hit = (policy[0] == "always" or (policy[0] == "kth" and obs.policy_calls == policy[1])
+                       or (policy[0] == "readers" and len(z._readers) > 0))
+                if hit:
+                    me = sch.current()
+                    obs.policy_raised(None if me is None else me.tid)
+                    raise PolicyError(policy_name(policy))
+                return True
+
+            zone.set_pruning_policy(prune_policy)
 
         def writer_prog(t, role):
             def prog():
@@ -372,29 +428,39 @@ def run_schedule(roles, mode, chooser, max_steps=None):
                     body()
                 sch.mark("w-end")
                 sch.op(("wending",))
-                if route == "commit":
-                    txn.commit()
-                elif route == "rollback":
-                    txn.rollback()
-                elif route == "with":
-                    with txn:
-                        body()
-                elif route == "with-exc":
-                    try:
+                raised = False
+                try:
+                    if route == "commit":
+                        txn.commit()
+                    elif route == "rollback":
+                        txn.rollback()
+                    elif route == "with":
                         with txn:
                             body()
-                            raise Boom()
-                    except Boom:
-                        pass
-                else:  # double
-                    txn.commit()
-                    for again in (txn.rollback, txn.commit):
+                    elif route == "with-exc":
                         try:
-                            again()
-                        except dns.transaction.AlreadyEnded:
+                            with txn:
+                                body()
+                                raise Boom()
+                        except Boom:
                             pass
-                        else:
-                            obs.bad("C12/mutex/transaction-ended-twice", f"writer {t}: a second end of an ended transaction was accepted")
+                    else:  # double
+                        try:
+                            txn.commit()
+                        except PolicyError:
+                            raised = True
+                        for again in (txn.rollback, txn.commit):
+                            try:
+                                again()
+                            except dns.transaction.AlreadyEnded:
+                                pass
+                            else:
+                                obs.bad("C12/mutex/transaction-ended-twice", f"writer {t}: a second end of an ended transaction was accepted")
+                except PolicyError:
+                    raised = True
+                if raised != (t in obs.failing):
+                    obs.bad("C12/commit-failure/exception-lost",
+                            f"writer {t}: pruning policy raised during its commit={t in obs.failing}, commit raised it={raised}")
                 sch._micro(sch.current())
                 sch.op(("wend",))
                 sch.mark("w-done")
@@ -411,11 +477,14 @@ def run_schedule(roles, mode, chooser, max_steps=None):
                 seen = tuple(int(x) for x in rds[0].strings) if rds is not None else ()
                 sch.op(("seen", r.version.id, content_of(r.version.nodes), seen))
                 sch.mark("r-end")
-                if role == "rdw":
-                    with r:
-                        pass
-                else:
-                    r.rollback()
+                try:
+                    if role == "rdw":
+                        with r:
+                            pass
+                    else:
+                        r.rollback()
+                except PolicyError:
+                    pass  # the policy raised inside _end_read's prune: the reader is unregistered, the lock released
                 sch._micro(sch.current())
                 sch.mark("r-done")
             return prog
@@ -443,7 +512,7 @@ def run_schedule(roles, mode, chooser, max_steps=None):
             expect = ()
             hist = [()]
             for t in obs.admitted:
-                if ROLE_INFO[roles[t]][0]:
+                if ROLE_INFO[roles[t]][0] and t not in obs.failing:
                     expect = body_of(roles[t], t, () if roles[t] in REPLACEMENT else expect)
                     hist.append(expect)
             got = content_of(zone.nodes)
@@ -460,7 +529,7 @@ def run_schedule(roles, mode, chooser, max_steps=None):
                     fails.append(("C12/readers-atomic/partial-or-unknown-version", f"reader {t} saw {seen} in version {vid}; committed history {hist}"))
         obs.emit(0, "fin")
         obs.states[-1] = "A" + sl(obs.admitted) + "C" + sl(obs.committed) + "D" + ("1" if finished else "0")
-        res = {"recs": obs.recs, "states": obs.states, "fails": fails, "choices": list(sch.choices),
+        res = {"model_roles": [r + "!" if t in obs.failing else r for t, r in enumerate(roles)], "recs": obs.recs, "states": obs.states, "fails": fails, "choices": list(sch.choices),
                "steps": sch.nsteps, "choice_points": sch.nchoice_points, "switches": sch.switches, "hist": obs.hist,
                "deadlock": sch.deadlock, "finished": finished, "sched": sch}
     finally:
@@ -488,7 +557,7 @@ def eval_case(ctx: Ctx, c: dict, chooser=None):
             chooser = S.ReplayChooser(c["choices"])
         else:
             chooser = make_chooser(tuple(c["strategy"]), Rng(c["seed"]), len(roles))
-    r = run_schedule(roles, mode, chooser)
+    r = run_schedule(roles, mode, chooser, policy=c.get("policy"))
     full = dict(c, choices=r["choices"])
     for k, v in r["hist"].items():
         ctx.count("step." + k, v)
@@ -496,7 +565,8 @@ def eval_case(ctx: Ctx, c: dict, chooser=None):
     ctx.count("schedule.steps", r["steps"])
     ctx.count("schedule.choice-points", r["choice_points"])
     ctx.count("schedule.switches", r["switches"])
-    op = "c12.run " + ",".join(roles) + " @" + mode + "/" + sl(r["choices"]) + " " + " ".join(r["recs"])
+    op = ("c12.run " + ",".join(r["model_roles"]) + " @" + mode + "/" + sl(r["choices"]) + "/" + policy_name(c.get("policy"))
+          + " " + " ".join(r["recs"]))
     ctx.corr(op, " ".join(r["states"]), full)
     seen = set()
     for sig, what in r["fails"]:
@@ -544,6 +614,10 @@ def generate(ctx: Ctx, n: int, rng):
         if mode == "sync" and strategy[0] == "pct":
             strategy = ("pct", strategy[1], 40)
         c = {"kind": "sched", "roles": roles, "mode": mode, "strategy": list(strategy), "seed": rng.next() & 0xFFFFFFFF}
+        if rng.chance(1, 4):
+            # a user-supplied pruning policy that raises: always / on its k-th call / only while readers are open
+            c["policy"] = rng.choice([["always"], ["always"], ["kth", 1], ["kth", 2], ["kth", 3], ["readers"], ["readers"]])
+            ctx.count("policy." + c["policy"][0])
         r = eval_case(ctx, c)
         ctx.case((tuple(roles), mode, tuple(r["choices"])), sample={"roles": roles, "mode": mode, "strategy": list(strategy), "steps": r["steps"]})
 
@@ -588,7 +662,7 @@ def core_run_model(ctx, line):
     return run_driver(ctx.prop, [line])[0]
 
 
-def exhaustive(ctx: Ctx, roles, mode, max_runs, bound=None, use_keys=True):
+def exhaustive(ctx: Ctx, roles, mode, max_runs, bound=None, use_keys=True, policy=None):
     state = {}
 
     if enough(ctx):
@@ -596,6 +670,8 @@ def exhaustive(ctx: Ctx, roles, mode, max_runs, bound=None, use_keys=True):
 
     def once(ch):
         c = {"kind": "sched", "roles": roles, "mode": mode}
+        if policy:
+            c["policy"] = policy
         r = eval_case(ctx, c, chooser=ch)
         ctx.case((tuple(roles), mode, tuple(r["choices"])), sample=None)
         state["last"] = r
@@ -604,11 +680,11 @@ def exhaustive(ctx: Ctx, roles, mode, max_runs, bound=None, use_keys=True):
         z = sch.observer.z
         return (sch.observer.state(), sch.state_key(), tuple(sorted(sch.observer.ev_owner.items())),
                 tuple(v.id for v in z._versions), tuple(sorted(r.version.id for r in z._readers)),
-                tuple(sorted(sch.observer.local.items())))
+                tuple(sorted(sch.observer.local.items())), sch.observer.policy_calls, tuple(sorted(sch.observer.failing)))
 
     runs, complete = S.dfs(once, max_runs, keyfn=keyfn if use_keys else None, preemption_bound=bound,
                            stop_fn=lambda: nfail(ctx) >= 3)
-    tag = f"dfs.{'+'.join(roles)}.{mode}" + (f".pb{bound}" if bound is not None else "")
+    tag = f"dfs.{'+'.join(roles)}.{mode}" + (f".pb{bound}" if bound is not None else "") + (f".policy-{policy_name(policy)}" if policy else "")
     ctx.count(tag + ".runs", runs)
     ctx.count(tag + (".complete" if complete else ".budget-exhausted"))
     ctx.extra.setdefault("dfs", {})[tag] = {"runs": runs, "complete": complete}
@@ -626,6 +702,8 @@ def run(ctx: Ctx):
     exhaustive(ctx, ["wca", "wca"], "sync", 150)
     exhaustive(ctx, ["wca", "wra"], "sync", 150)
     exhaustive(ctx, ["wca", "wca"], "line", 900)
+    exhaustive(ctx, ["wca", "wca"], "sync", 150, policy=["always"])
+    exhaustive(ctx, ["wca", "wca", "wca"], "sync", 400, policy=["kth", 2], bound=1, use_keys=False)
     generate(ctx, ctx.n(3000, 7000), rng)
     malformed(ctx, rng.fork(3), ctx.n(60, 600))
     if ctx.tier == "thorough":
@@ -661,8 +739,9 @@ def replay(ctx: Ctx, obj: dict):
 def impl_of_op(op: str):
     """re-run the schedule recorded in the op line (`@mode/choices`) on the implementation; returns its state line"""
     toks = op.split(" ")
-    roles = toks[1].split(",")
-    mode, _, ch = toks[2][1:].partition("/")
+    roles = [x.rstrip("!") for x in toks[1].split(",")]
+    parts = toks[2][1:].split("/")
+    mode, ch, pol = parts[0], (parts[1] if len(parts) > 1 else ""), (parts[2] if len(parts) > 2 else "-")
     choices = [] if ch in ("", "-") else [int(x) for x in ch.split(".")]
-    r = run_schedule(roles, mode, S.ReplayChooser(choices))
+    r = run_schedule(roles, mode, S.ReplayChooser(choices), policy=policy_spec(pol))
     return " ".join(r["states"])
